@@ -32,6 +32,22 @@ CHECKS = {
          "Randomised history search against a storage model computed from the reference values.", "trusts the storage model (sizes of index entries and payload)", "DESIGN.md 4/C18"),
  "C20": ("history", "metamorphic PBT: histories mixing all input forms compared with a twin fed the canonical form (indices, used bytes, reads)",
          "Randomised history search; form coverage is measured per impl Push header.", "trusts twin execution", "DESIGN.md 4/C20"),
+ "C03": ("stack", "stateful model-based PBT of FlatStack histories (copy/extend/from_iter/clear/clone/reserve/merge_capacity/serde) against a Vec of owned values, per (region, index container) pair; out-of-bounds get must panic",
+         "Randomised history search over 36 (region composition, index container) pairs.", "trusts the Vec reference model and the deep read oracle", "DESIGN.md 4/C03"),
+ "C05": ("index", "bounded-exhaustive enumeration of push/clear sequences over a transition-covering alphabet plus proptest op lists, against a Vec<usize> reference and a u128 acceptor of the documented stride pattern; both build profiles",
+         "Exhaustive up to the stated length over the stated alphabet (flagged per sub-space in the evidence) plus randomised search beyond; unbounded sequences are sampled only.", "trusts the reference vector and the u128 stride acceptor", "DESIGN.md 4/C05"),
+ "C06": ("huffman", "PBT + bounded-exhaustive enumeration of (frequency profile, item sequence, generation) cases against exact-decode, bit-accounting, refusal and an independent optimal-cost (two-queue Huffman) oracle",
+         "Randomised + bounded-exhaustive search; optimality is compared by total cost so any tie-break is accepted.", "trusts the harness's reference Huffman cost and the symbol-count model", "DESIGN.md 4/C06"),
+ "C07": ("codec", "stateful PBT of push/merge_regions/clear histories over four dictionary-coded regions against a reference model of the source statistics: exact bytes or permitted refusal, stored-byte deltas, one-byte rule under a sufficient condition",
+         "Randomised history search incl. lossy-summary cases (>1024 distinct strings).", "trusts the statistics model; the one-byte rule is only asserted under a tie-safe sufficient condition", "DESIGN.md 4/C07"),
+ "C14": ("laws", "PBT of the IntoOwned laws (into_owned, borrow_as, clone_onto over arbitrary prior targets, reborrow) and region-to-region copies on every catalogued composition, incl. trained coded regions",
+         "Randomised search over (region contents, item, prior target, destination contents).", "trusts the owned reference values", "DESIGN.md 4/C14"),
+ "C15": ("order", "bounded-exhaustive + random triples of small-domain values in different regions/representations; eq/cmp/partial_cmp against the owned values' lexicographic order and the total-order laws",
+         "Exhaustive over all triples of vectors of length <= 3 over a 2-symbol alphabet x all representation assignments, plus randomised search with longer vectors.", "trusts std's Vec ordering as the reference", "DESIGN.md 4/C15"),
+ "C17": ("alloc", "PBT with a counting global allocator in the harness: pre-size by reserve_items / reserve_regions / merge_regions / merge_capacity, push exactly the announced contents, capacities constant and zero allocator calls; logarithmic call bound for n = 2^6..2^14 (2^16) without pre-sizing",
+         "Randomised search over batches and routes; the asymptotic clause is sampled at fixed n against explicit constants.", "trusts the counting allocator (thread-local, enabled only around the measured pushes) and heap_size capacities", "DESIGN.md 4/C17"),
+ "C19": ("index", "the C05 enumeration and random op lists with the documented space rule computed independently in u128, plus FlatStack histories over dense-index regions; heap_size used/capacity against the rule",
+         "Exhaustive up to the stated length over the stated alphabet plus randomised search.", "trusts the harness's reading of the documented rule; being cheaper than documented is accepted", "DESIGN.md 4/C19"),
 }
 PENDING = {}
 
